@@ -576,7 +576,8 @@ def run_e2p(prog, rep):
         if f.kind == "closure" and f.parent and f.parent.endswith("execute_lazy_into") and f.body is not None:
             targets = _handler_calls(prog, f.body, lambda g: g.self_path == "tsg::ast::Stanza" and g.name == "execute_lazy")
             if targets:
-                oblige(f, "per match", [0], targets, "the execution of a stanza for a match")
+                # every match is polled, also one for which nothing is executed (an early `return Ok(())` before the poll)
+                oblige(f, "per match", [0], set(targets) | (set(f.body.return_blocks()) - _fail(f.body)), "the execution of a stanza for a match (or the end of the visit of a match)")
     # (5) deferred statements, (6) lazy values
     for f in prog.find(self_ty="tsg::execution::lazy::statements::LazyStatement", name="evaluate"):
         targets = _handler_calls(prog, f.body, lambda g: g.name == "evaluate" and g.self_path and "lazy::statements::Lazy" in g.self_path)
